@@ -74,6 +74,7 @@ def generate(rng, tier, focus, k=None):
         tr["order"] = rng.sample(range(n_sp), rng.randint(1, n_sp))
         tr["outfile"] = rng.random() < 0.5
         tr["scale_given"] = rng.random() < 0.8
+        tr["relative"] = rng.choice([None, None, "cwd", "subdir"])
         return tr
     # discovery: which species are complete among the candidates, which are explicit, which excluded
     status = {}
@@ -106,8 +107,9 @@ def abbreviate(trace):
 OPS_REMOVABLE = False
 
 
-def run_main(argv, np_seed, steps_factor, sink, extra_patches=()):
-    """gaddlemaps._cli.main() in-process with patched sys.argv under a random seam; returns captured stdout."""
+def run_main(argv, np_seed, steps_factor, sink, extra_patches=(), cwd=None):
+    """gaddlemaps._cli.main() in-process with patched sys.argv under a random seam; returns captured stdout.
+    The working directory is the run's scratch directory (a tool that writes relative to the cwd must not litter)."""
     import io
     import contextlib
     import gaddlemaps._cli as C
@@ -116,7 +118,10 @@ def run_main(argv, np_seed, steps_factor, sink, extra_patches=()):
     old_sf = Alignment.STEPS_FACTOR
     buf = io.StringIO()
     seam = RandomSeam(sink, np_seed)
+    old_cwd = os.getcwd()
     try:
+        if cwd is not None:
+            os.chdir(cwd)
         sys.argv = ["gaddlemaps"] + list(argv)
         Alignment.STEPS_FACTOR = steps_factor
         with seam, contextlib.redirect_stdout(buf), contextlib.ExitStack() as st:
@@ -124,6 +129,7 @@ def run_main(argv, np_seed, steps_factor, sink, extra_patches=()):
                 st.enter_context(patched(mod, name, val))
             C.main()
     finally:
+        os.chdir(old_cwd)
         sys.argv = old_argv
         Alignment.STEPS_FACTOR = old_sf
     return buf.getvalue()
@@ -178,23 +184,29 @@ def _compare_outputs(ctx, cli_out, lib_out, d1, d2, label):
 def exec_equiv(trace, ctx):
     world = trace["world"]
     d = ctx.tmpdir()
-    paths = W.write_world(d, world)
+    relative = trace.get("relative")
+    wd = os.path.join(d, "w") if relative == "subdir" else d        # where the files live; the tool's cwd is always d
+    os.makedirs(wd, exist_ok=True)
+    paths = W.write_world(wd, world)
     triples = [(paths["species"][s]["top_start"], paths["species"][s]["gro_end"], paths["species"][s]["top_end"])
                for s in trace["order"]]
-    argv = [paths["system"]]
+    as_arg = (lambda p_: os.path.relpath(p_, d)) if relative else (lambda p_: p_)
+    argv = [as_arg(paths["system"])]
     for t in triples:
-        argv += ["--mol", *t]
+        argv += ["--mol", *[as_arg(x) for x in t]]
     scale = trace["scale"] if trace["scale_given"] else 0.5
     if trace["scale_given"]:
         argv += ["--scale", repr(trace["scale"])]
     if trace["outfile"]:
         cli_out = os.path.join(d, "cli_result.gro")
-        argv += ["-o", cli_out]
+        argv += ["-o", as_arg(cli_out)]
     else:
-        cli_out = os.path.join(d, "mapped_system.gro")
+        cli_out = os.path.join(wd, "mapped_system.gro")           # beside the input, wherever the cwd is
+    if relative:
+        ctx.probe("relative_paths_" + relative)
     s1, s2 = Sink(), Sink()
     try:
-        run_main(argv, trace["np_seed"], trace["steps_factor"], s1)
+        run_main(argv, trace["np_seed"], trace["steps_factor"], s1, cwd=d)
     except SystemExit as e:
         ctx.violate(P, "cli-exit", f"the command-line run exited with {e.code}")
         return
@@ -214,7 +226,8 @@ def exec_equiv(trace, ctx):
     _compare_outputs(ctx, cli_out, lib_out, s1.digest(), s2.digest(), "generated world")
     if not trace["outfile"]:
         ctx.probe("default_output_name")
-        extra = [f for f in os.listdir(d) if f.startswith("mapped_") and f != "mapped_system.gro"]
+        extra = [os.path.join(r, f) for r, _, fs in os.walk(d) for f in fs
+                 if f.startswith("mapped_") and os.path.join(r, f) != cli_out]
         if extra:
             ctx.violate(P, "default-output-name", f"unexpected output files {extra}")
     ctx.nontrivial = True
@@ -240,7 +253,7 @@ def exec_equiv_shipped(trace, ctx):
         argv += ["--outfile", cli_out]
     s1, s2 = Sink(), Sink()
     try:
-        run_main(argv, trace["np_seed"], trace["steps_factor"], s1)
+        run_main(argv, trace["np_seed"], trace["steps_factor"], s1, cwd=d)
         lib_out = os.path.join(d, "lib.gro")
         run_library(system, triples, trace["scale"], lib_out, trace["np_seed"], trace["steps_factor"], s2)
     except Exception as e:
@@ -400,7 +413,8 @@ def exec_discover(trace, ctx):
         ctx.nontrivial = True
         return
     try:
-        stdout = run_main(argv, trace["np_seed"], trace["steps_factor"], sink, extra_patches=[(C, "classify_files", classify2)])
+        stdout = run_main(argv, trace["np_seed"], trace["steps_factor"], sink, extra_patches=[(C, "classify_files", classify2)],
+                          cwd=d)
     except SystemExit as e:
         ctx.violate(P, "cli-exit", f"--auto run exited with {e.code}")
         return
@@ -419,6 +433,26 @@ def exec_discover(trace, ctx):
         ctx.violate(P, "auto-mapped-species", f"--auto mapped species {sorted(mapped_names)}; complete and not excluded: "
                                               f"{sorted(set(want_species) & present)} (excluded {excluded}, status {trace['status']})",
                     key="excluded" if mapped_names & set(excluded) else "other")
+    else:
+        # the --auto run equals the library workflow fed with the explicit triples followed by the discovered ones in
+        # the order the tool reports having added them (that order decides who consumes the random stream first)
+        order_added = [m.group(1) for m in re.finditer(r"The molecue (\S+) has been added", stdout)]
+        if sorted(order_added) == sorted(n for n in expected if n not in excluded):
+            triples = [tuple(t) for t in explicit] + [(expected[n]["top_CG"], expected[n]["coor_AA"], expected[n]["top_AA"])
+                                                      for n in order_added]
+            s2 = Sink()
+            lib_out = os.path.join(d, "auto_lib.gro")
+            try:
+                run_library(paths["system"], triples, trace["scale"], lib_out, trace["np_seed"], trace["steps_factor"], s2)
+            except Exception as e:
+                ctx.violate(P, "library-raised", f"the library workflow raised {type(e).__name__}: {e}", key=type(e).__name__)
+                return
+            ctx.steps += s2.n
+            _compare_outputs(ctx, out, lib_out, sink.digest(), s2.digest(), "--auto run")
+            ctx.probe("auto_run_compared_with_library")
+        else:
+            ctx.violate(P, "auto-reported-species", f"--auto reported adding {order_added}; complete and not excluded: "
+                                                    f"{sorted(n for n in expected if n not in excluded)}")
     if excluded:
         ctx.probe("excluded_species")
     if explicit:
